@@ -3280,6 +3280,18 @@ where
             }
         }
 
+        // The batch repair passes flip cells without re-canonicalising their orientation. Every
+        // topology guarantee promises positively oriented cells (Level 3), not only the ones
+        // that run the completion-time validation below.
+        if self.tri.tds.number_of_cells() > 0
+            && let Err(err) = self.tri.normalize_and_promote_positive_orientation()
+        {
+            return Err(TriangulationConstructionError::GeometricDegeneracy {
+                message: format!("orientation normalization failed after construction: {err}"),
+            }
+            .into());
+        }
+
         if topology.requires_vertex_links_at_completion() {
             tracing::debug!("post-construction: starting topology validation (finalize)");
             let validation_started = Instant::now();
